@@ -1,4 +1,4 @@
-\* generation, thorough: literals with <= 5 nodes, nesting <= 4
+\* generation, thorough: every literal with <= 5 nodes (any nesting), leaves {null, 1, "s"}
 CONSTANTS
   Dev = {}
   Modes = {"lit"}
@@ -8,10 +8,10 @@ CONSTANTS
   DocSet <- DocBoth
   Family = "all"
   MaxFields = 2
-  MaxDepth = 4
+  MaxDepth = 5
   MaxItems = 3
   MaxNodes = 5
-  Leaves = {1, 2, 7}
+  Leaves = {1, 2}
   GenSizes <- SizesNone
   NVals = 0
 SPECIFICATION Spec
